@@ -134,6 +134,61 @@ var DeprecatedNoop = []string{
 	"FILE_SAME_PHP_GENERIC_SERVICES", "MESSAGE_SAME_MESSAGE_SET_WIRE_FORMAT",
 }
 
+// docReplacements: the deprecated rule IDs and the rule IDs documented as replacing them ("use the
+// replacement IDs instead"; a deprecated ID that is still written in use / except / ignore_only stands for
+// its replacements). v1beta1 and v1 know all five IDs, v2 only MESSAGE_SAME_MESSAGE_SET_WIRE_FORMAT.
+var docReplacements = map[string][]string{
+	"FIELD_SAME_CTYPE":                     {"FIELD_SAME_CPP_STRING_TYPE"},
+	"FIELD_SAME_LABEL":                     {"FIELD_SAME_CARDINALITY", "FIELD_WIRE_COMPATIBLE_CARDINALITY", "FIELD_WIRE_JSON_COMPATIBLE_CARDINALITY"},
+	"FILE_SAME_JAVA_STRING_CHECK_UTF8":     {"FIELD_SAME_JAVA_UTF8_VALIDATION"},
+	"FILE_SAME_PHP_GENERIC_SERVICES":       {},
+	"MESSAGE_SAME_MESSAGE_SET_WIRE_FORMAT": {},
+}
+
+// DocReplacements returns the documented replacements of a deprecated rule ID in a version
+// (nil, false: not a deprecated ID of that version).
+func DocReplacements(version, id string) ([]string, bool) {
+	rs, ok := docReplacements[id]
+	if !ok || (version == "v2" && id != "MESSAGE_SAME_MESSAGE_SET_WIRE_FORMAT") {
+		return nil, false
+	}
+	return rs, true
+}
+
+// DocDeprecatedFor lists the deprecated IDs of a version that are replaced by the rule, sorted.
+func DocDeprecatedFor(version, rule string) []string {
+	var out []string
+	for id := range docReplacements {
+		if rs, ok := DocReplacements(version, id); ok && contains(rs, rule) {
+			out = append(out, id)
+		}
+	}
+	sort.Strings(out)
+	return out
+}
+
+// DocExpand resolves an ID written in a buf.yaml (use, ignore_only key) to the documented rule IDs it stands
+// for in the version: a category -> its rules, a deprecated ID -> its replacements, a rule -> itself.
+func DocExpand(version, id string) []string {
+	if rs, ok := DocReplacements(version, id); ok {
+		return append([]string(nil), rs...)
+	}
+	if _, ok := catLetter[id]; ok {
+		var out []string
+		for _, r := range DocRules(version) {
+			cats, _ := DocCategories(version, r)
+			if contains(cats, id) {
+				out = append(out, r)
+			}
+		}
+		return out
+	}
+	if _, ok := DocCategories(version, id); ok {
+		return []string{id}
+	}
+	return nil
+}
+
 var catLetter = map[string]string{"FILE": "F", "PACKAGE": "P", "WIRE_JSON": "J", "WIRE": "W"}
 
 // DocCategories returns the documented categories of a rule in a version (nil, false if the rule
